@@ -37,6 +37,7 @@ import (
 
 	abcicli "github.com/tendermint/tendermint/abci/client"
 	abci "github.com/tendermint/tendermint/abci/types"
+	dbm "github.com/tendermint/tm-db"
 
 	"github.com/cosmos/cosmos-sdk/client"
 	cryptotypes "github.com/cosmos/cosmos-sdk/crypto/types"
@@ -1057,6 +1058,12 @@ func c14Child(t *testing.T) {
 	}
 	if bz, err := os.ReadFile(filepath.Join(w.repo, "x/xibc/clients/light-clients/bsc/types/testdata/update_headers.json")); err == nil {
 		_ = json.Unmarshal(bz, &w.bscHdrs)
+	}
+	if w.twin == "b" {
+		// twin b is a node whose operator configured everything that is meant to be node-local differently
+		xibctesting.DefaultTestingAppInit = func() (*app.Teleport, map[string]json.RawMessage) {
+			return c14NewAppConfigured(dbm.NewMemDB()), app.NewDefaultGenesisState()
+		}
 	}
 	w.coord = xibctesting.NewCoordinator(t, 2)
 	w.ch[0] = w.coord.GetChain(xibctesting.GetChainID(0))
